@@ -2056,6 +2056,18 @@ impl<'a, const C: usize, const R: usize, T: 'a + Copy + std::fmt::Debug> Layout<
     }
 }
 
+/// Verification hook (off unless built with `--cfg kanata_verif`): read-only access to the two
+/// private transparent-resolution settings, so an external harness can serialise the layout.
+#[cfg(kanata_verif)]
+impl<'a, const C: usize, const R: usize, T: 'a + Copy + std::fmt::Debug> Layout<'a, C, R, T> {
+    pub fn verif_trans_settings(&self) -> (bool, bool) {
+        (
+            self.trans_resolution_behavior_v2,
+            self.delegate_to_first_layer,
+        )
+    }
+}
+
 #[cfg(test)]
 mod test {
     extern crate std;
